@@ -13,7 +13,8 @@ RULE = ('hypothesis: channels built by vf (not by numqi.random): dim_in, dim_out
         'by loops, explicit Choi/super-operator index formulas, Bloch vectors via the textbook Gell-Mann basis, independent fidelity / trace-distance / '
         'entropy formulas, metamorphic data-processing inequalities. Non-trivial = din != dout or rank-deficient Choi or real channel or pure/low-rank '
         'input; distinct = (din, dout, terms, field, channel kind, input kind).'
-        ' Kraus/Choi/super operators and states also in other memory layouts; relative entropy for every pair (non-negative; large when rho has weight outside supp sigma); channels given as callables that return their argument; numqi draws admitted only if trace preserving to 1e-12.')
+        ' Kraus/Choi/super operators and states also in other memory layouts; relative entropy for every pair (non-negative; large when rho has weight outside supp sigma); channels given as callables that return their argument; numqi draws admitted only if trace preserving to 1e-12.'
+        ' Bloch map of state preparations (dim_in = 1) and of real-dtype Choi operators; second-call clause for the built-in noise channels.')
 ASSUMPTIONS = ['fidelity-type quantities (square roots of eigenvalues) are compared at 1e-6, linear identities at 1e-10',
                'relative-entropy monotonicity is checked only for full-rank sigma with condition number <= 1e6 (for support-deficient sigma the true value is +inf)',
                'Kraus sets are compared through their action and their Choi operator, never element-wise']
